@@ -20,7 +20,9 @@ func roundTrip(r *rand.Rand, zero any, dir string, slack []int, tz string) M {
 	vals := M{}
 	walk(msg, func(name string, f reflect.Value) { vals[name] = genField(r, f, true) })
 
-	rec := M{"fn": "rt", "type": t.Name(), "dir": dir, "vals": vals, "tz": tz}
+	shape := M{}
+	walk(msg, func(name string, f reflect.Value) { shape[name] = shapeClass(f.Type()) })
+	rec := M{"fn": "rt", "type": t.Name(), "dir": dir, "vals": vals, "tz": tz, "shape": shape}
 	var bytes []byte
 	p, pm := guard(func() {
 		b, err := codec.Marshal(msg.Interface())
